@@ -417,3 +417,75 @@ def c13_source(rng: Rng):
             or kinds != ["eof"] or pdu_fields(got[0])["cond"] != "10":
         f.add("C13:source-no-check-limit-cancel", {"flt": st.flt, "pdus": kinds}, len(s.ops) - 1)
     return s, f, c, {}
+
+
+def c13_two_remotes(rng: Rng):
+    """implementation only: one receiver, two sending entities for which the user's check timer provider gives
+    different intervals; an unacknowledged transaction of each, the EOF overtaking the last tile.  Each
+    transaction's check timer is the one the provider gives for ITS sender: no check before that interval has
+    passed, completion at the expiry before which the late tile arrived."""
+    c = rand_cfg(rng, mode="U", put_mode="-", metadata_only=False)
+    c.faults_d = ""
+    if c.cks in (15, 0):
+        c.cks = rng.choice((2, 3))
+    seg = max(1, c.seg_len)
+    c.data = rand_bytes(rng, rng.randrange(seg + 1, 3 * seg + 1))
+    c.chklim = max(2, c.chklim)
+    f = o.Fails()
+    w = c.idw
+    sv = int(c.sid.split("/")[0])
+    sv2 = sv + 1 if sv + 1 < 2 ** (8 * w) and sv + 1 != int(c.did.split("/")[0]) else sv - 1
+    if sv2 <= 0 or sv2 == int(c.did.split("/")[0]):
+        return Session(header_with_parent_dirs(c)), f, c, {"skipped": "no second entity id available"}
+    ms = {sv: rng.choice((400, 1000, 3000)), sv2: rng.choice((700, 2000, 5000))}
+    header = []
+    for line in header_with_parent_dirs(c):
+        if line.startswith("H D "):
+            line += " chkmap=" + ",".join(f"{k}:{v}" for k, v in ms.items())
+        header.append(line)
+        if line.startswith("R D "):
+            header.append(line.replace(f"id={c.sid}", f"id={sv2}/{w}"))
+    s = Session(header)
+    n = len(c.data)
+    tiles = g.grid(n, seg)
+    order = [sv, sv2] if rng.chance(0.5) else [sv2, sv]
+    seq = c.seqnext
+    for ent in order:
+        h = g.hdr(c, seq, src=f"{ent}/{w}")
+        seq = (seq + 1) % 2 ** c.seqbits
+        s.sm("D", g.md(c, h, msgs="-"))
+        s.drain("D")
+        for off, ln in tiles[:-1]:
+            s.sm("D", g.fd(h, off, c.data[off:off + ln]))
+            s.drain("D")
+        st = s.sm("D", g.eof(h, 0, g.ref_checksum(c.cks, c.data), n))
+        s.drain("D")
+        if not (st.ok and st.step == "RECV_FILE_DATA_WITH_CHECK_LIMIT_HANDLING"):
+            return s, f, c, {"skipped": f"step {st.step if st.ok else '?'} after the early EOF"}
+        iv = ms[ent]
+        off, ln = tiles[-1]
+        d = rng.randrange(0, iv - 1)
+        s.tick(d)
+        s.sm("D", g.fd(h, off, c.data[off:off + ln]))          # the late tile, within the first interval
+        s.drain("D")
+        # one millisecond before this transaction's own interval has passed: nothing happens
+        s.tick(iv - 1 - d)
+        st0 = s.sm("D")
+        got0 = s.drain("D")
+        if not st0.ok or st0.step != "RECV_FILE_DATA_WITH_CHECK_LIMIT_HANDLING" or st0.flt or got0 or \
+                any(x.startswith("finished(") for x in st0.ind):
+            f.add("C13:check-before-expiry", {"entity": ent, "interval": iv, "out": st0.line[:200]}, len(s.ops) - 1)
+            break
+        s.tick(1)
+        st1 = s.sm("D")
+        s.drain("D")
+        fin = [x for x in (st1.ind if st1.ok else []) if x.startswith("finished(")]
+        if not st1.ok or st1.flt or (fin and ind_parts(fin[0])[1][1:3] != ["0", "0"]) or \
+                (st1.ok and st1.step == "RECV_FILE_DATA_WITH_CHECK_LIMIT_HANDLING"):
+            f.add("C13:late-data-did-not-complete", {"entity": ent, "interval": iv, "out": st1.line[:200]},
+                  len(s.ops) - 1)
+            break
+        for _ in range(3):                                     # let the transaction end (closure: Finished PDU)
+            s.sm("D")
+            s.drain("D")
+    return s, f, c, {"intervals": ms, "order": order}
